@@ -46,7 +46,7 @@ assert SIZE_FLOAT == SIZES['f']
 assert SIZE_DOUBLE == SIZES['d']
 
 LZMA_DIC_MIN: Final = (1 << 12)
-ST_LZMA_SOURCE: Final = Struct('<4sIIbI')
+ST_LZMA_SOURCE: Final = Struct('<4sIIBI')
 # The options Source seems to be using.
 LZMA_FILT: Final = {
     'id': lzma.FILTER_LZMA1,
